@@ -15,7 +15,7 @@ PREDS = {
     "C05": ["NoEarlyClose", "NoStall", "DoneMeansDone", "PipePrefix", "PipeComplete", "PipeSettle", "PipeGen", "Prefix", "SeqExact", "FoldRes", "Complete", "TakeBound", "CallsPrefix", "CallsComplete", "Settle1"],
     "C06": ["PipePrefix", "NoPanic", "Prefix", "FoldRes", "Settle1", "Settle2", "LiftCloses", "GenExact", "GenStops", "GenNoEarlyClose", "GenSettle", "JoinPerInput", "JoinNothingInvented"],
     "C07": ["NoEarlyClose", "NoStall", "Prefix", "Complete", "CallsPrefix", "CallsComplete", "Settle1", "LiftCloses", "NoPanic", "GenExact", "GenSettle"],
-    "C08": ["NeverBlocksSender", "Prefix", "LosslessAfterCancel", "Complete", "Settle1", "NewSettle", "NoPanic"],
+    "C08": ["NeverBlocksSender", "NewDelivers", "Prefix", "LosslessAfterCancel", "Complete", "Settle1", "NewSettle", "NoPanic"],
     "C09": ["NoEarlyClose", "NoStall", "DoneMeansDone", "Prefix", "Complete", "CallsPrefix", "CallsComplete", "NoPanic", "Settle1", "Settle2"],
     "C10": ["DoneMeansDone", "FoldRes", "Complete", "CallsComplete", "Settle1", "NoPanic"],
     "C11": ["GenExact", "GenStops", "GenNoEarlyClose", "EmitPaced", "EmitKeepUp", "Settle2", "GenSettle", "NoPanic"],
@@ -82,6 +82,9 @@ def stage_cfgs(pid, tier, rng):
             if kind not in ("Void", "Take"):
                 mc.append(C(kind=kind, cap=1, mode="pure", pred=[2], monoid="digits9", inputs=[[1, 2]], gate=True))
                 gen.append(C(kind=kind, cap=1, mode="pure", pred=[2], monoid="digits9", inputs=[[1, 2]], gate=True))
+        # "take everything": a bound far beyond the input (and beyond 32 bits) is no bound
+        for n in (1 << 31, (1 << 32) + 2, (1 << 63) - 1):
+            rnd.append(C(kind="Take", cap=1, inputs=[[1, 2, 3, 4]], n=n))
         # Seq / ToSeq are identity on lists (no goroutine of their own): driven by random schedules only
         rnd.append(C(kind="Seq", inputs=[[(7 * i) % 1000 + 1 for i in range(1100)]]))     # longer than any internal chunk size
         for inp in ([], [1], [1, 2, 3], [3, 1, 2, 2]):
@@ -216,7 +219,7 @@ MODEL_INV = {
     "JoinStage": {"JoinPerInput": "JoinPerInputInv", "JoinNothingInvented": "JoinNothingInventedInv", "JoinComplete": "JoinCompleteInv",
                   "Settle1": "Settle1Inv", "Settle2": "Settle2Inv"},
     "Unbound": {"Prefix": "PrefixInv", "NeverBlocksSender": "NeverBlocksSenderInv", "LosslessAfterCancel": "LosslessAfterCancelInv",
-                "Complete": "CompleteInv", "Settle1": "Settle1Inv", "NewSettle": "NewSettleInv", "NoPanic": "NoPanicInv", "_": "Conservation"},
+                "Complete": "CompleteInv", "Settle1": "Settle1Inv", "NewSettle": "NewSettleInv", "NewDelivers": "NewDeliversInv", "NoPanic": "NoPanicInv", "_": "Conservation"},
 }
 
 
@@ -401,6 +404,7 @@ def check(run, replay=None):
         for r in res[ntl:]:
             if isinstance(r, list):
                 scheds += r
+        scheds += variations(scheds, rng, 1500 if th else 400)
         if not scheds:
             raise Infra("no schedules for " + pid)
         # (3) execute on the real code, (4) judge
@@ -419,7 +423,7 @@ def check(run, replay=None):
         report(run, pid, scheds, traces, viols)
         ex = {k: v for k, v in sorted(pipe_run.EXERCISED.items()) if k in PREDS[pid]}
         run.notes["executions_in_which_the_antecedent_held"] = ex
-        conditional = {"Complete", "Settle1", "Settle2", "LiftCloses", "TakeBound", "FoldRes", "NeverBlocksSender", "LosslessAfterCancel", "GenStops", "EmitPaced",
+        conditional = {"Complete", "Settle1", "Settle2", "LiftCloses", "TakeBound", "FoldRes", "NeverBlocksSender", "NewDelivers", "LosslessAfterCancel", "GenStops", "EmitPaced",
                        "EmitKeepUp", "JoinComplete", "ThrottleWindow", "ThrottlePaced", "PipeComplete", "PipeGen"}
         vac = [p for p in PREDS[pid] if p in conditional and not ex.get(p)]
         log("phase: antecedents held: %s%s" % (ex, (" ; NEVER exercised in this run: %s" % vac) if vac else ""))
@@ -586,6 +590,58 @@ def rand_scheds(cfgs, rng, per_cfg, epilogues, weights=None):
     return out
 
 
+def variations(scheds, rng, n):
+    """The same schedules over other element types (cfg.elem: pointers with nil, interface values with nil and typed
+    contents, a non-comparable multi-word struct) and next to another instance of the same stage in the same process
+    (cfg.twin: one that ran to completion before - with its own or with the same context - or one that is offered the same
+    values at the same moments).  The observation is unchanged, so every predicate applies as it stands."""
+    groups = {}
+    for s in scheds:
+        c = s["cfg"]
+        if c["kind"] != "Pipeline":
+            groups.setdefault((c["kind"], c["forked"], c["mode"], s.get("origin") == "random"), []).append(s)
+    for g in groups.values():
+        rng.shuffle(g)
+    out, keys = [], sorted(groups)
+
+    def zeroed(c):
+        # the zero value of the element type (a nil pointer, the nil interface) takes the place of one value
+        if not (c["inputs"] and c["inputs"][0]):
+            return c
+        z = c["inputs"][0][0]
+        sub = lambda xs: [0 if x == z else x for x in xs]
+        return dict(c, inputs=[sub(i) for i in c["inputs"]], fail=sub(c["fail"]), pred=sub(c["pred"]))
+
+    def add(s, c):
+        out.append(dict(s, cfg=c, origin=s.get("origin", "") + "+" + "/".join(x for x in (c.get("elem"), c.get("twin")) if x)))
+    # first every stage kind over every element type, with the zero value among the elements, and next to each kind of twin
+    for k in keys:
+        if k[3]:
+            for elem in ("ptr", "iface", "box"):
+                if groups[k] and k[0] != "Fold":
+                    s = groups[k].pop()
+                    add(s, dict(zeroed(s["cfg"]), elem=elem))
+            for twin in ("prelude", "prelude-ctx", "prelude-f", "mirror"):
+                if groups[k]:
+                    s = groups[k].pop()
+                    add(s, dict(s["cfg"], twin=twin))
+    while len(out) < n and any(groups.values()):
+        for k in keys:
+            if not groups[k] or len(out) >= n:
+                continue
+            s = groups[k].pop()
+            c = dict(s["cfg"])
+            r = rng.random()
+            if c["kind"] != "Fold" and r < 0.6:
+                if s.get("origin") == "random" and rng.random() < 0.6:
+                    c = zeroed(c)
+                c["elem"] = rng.choice(["ptr", "iface", "box"])
+            if r >= 0.4 or c["kind"] == "Fold":
+                c["twin"] = rng.choice(["prelude", "prelude-ctx", "prelude-f", "mirror", "mirror"])
+            add(s, c)
+    return out
+
+
 def other_cfgs(pid, th, rng):
     """Configurations of the stages outside the Stage model (Emit, Unfold, Join, Throttling, New)."""
     out = []
@@ -670,6 +726,13 @@ def special_scheds(pid, th, rng):
                         out.append({"cfg": C(kind="Throttling", cap=cap, ops=ops, interval=iv, inputs=[list(range(1, 9))]), "cmds": cmds, "epilogue": "drain", "origin": "idle-burst"})
                         cmds = [S(), S(), S(), A(idle), R(), R(), R(), S(), R(), S(), R(), S(), R(), A(1), R(), S(), R()]
                         out.append({"cfg": C(kind="Throttling", cap=cap, ops=ops, interval=iv, inputs=[list(range(1, 9))]), "cmds": cmds, "epilogue": "drain", "origin": "idle-burst"})
+        # larger batches: an idle period that starts in the middle of a batch, then a burst (tokens not taken must not add up)
+        for ops in (4, 5):
+            for cap in (0, 1):
+                for used in (1, 2):
+                    n = 4 * ops
+                    cmds = [x for _ in range(used) for x in (S(), R())] + [A(7), {"c": "recvall", "o": "out", "d": n}] + [S()] * (n - used) + [A(1)] * 8
+                    out.append({"cfg": C(kind="Throttling", cap=cap, ops=ops, interval=3, inputs=[list(range(1, n + 1))]), "cmds": cmds, "epilogue": "drain", "origin": "idle-burst"})
     if pid == "C11":
         for cap in [0, 1, 2]:
             for freq in [1, 2, 3]:
@@ -702,6 +765,16 @@ def special_scheds(pid, th, rng):
             n = 1100
             cmds = [B(*([S()] * 50)) for _ in range(n // 50)] + [{"c": "close", "i": 0}, R("res"), R("res")]
             out.append({"cfg": C(kind="Fold", forked=True, par=par, cap=50, monoid="sum", inputs=[[1 + (i % 3) for i in range(n)]]), "cmds": cmds, "epilogue": "drain", "origin": "long-input"})
+        # a backlog larger than any plausible internal batch, buffered and closed before the (held) first Combine returns
+        for par in (1, 2):
+            n = 70 * (par + 2)
+            cmds = [B(*([S()] * n + [{"c": "close", "i": 0}]))] + [{"c": "release", "x": -1}] * (n + 2 * par + 2) + [R("res"), R("res")]
+            out.append({"cfg": C(kind="Fold", forked=True, par=par, cap=n, monoid="sum", inputs=[[1 + (i % 5) for i in range(n)]], gate=True), "cmds": cmds, "epilogue": "drain", "origin": "long-backlog"})
+        # more workers than any plausible fixed-size table of partial results, every one of them held inside Combine at once
+        for par in (33, 40, 70):
+            n = 2 * par + 3
+            cmds = [B(*([S()] * n + [{"c": "close", "i": 0}]))] + [B(*([{"c": "release", "x": -1}] * par)) for _ in range(6)] + [{"c": "release", "x": -1}] * 8 + [R("res"), R("res")]
+            out.append({"cfg": C(kind="Fold", forked=True, par=par, cap=n, monoid="sum", inputs=[[1 + (i % 7) for i in range(n)]], gate=True), "cmds": cmds, "epilogue": "drain", "origin": "many-workers"})
         # workers held inside Combine while the rest of the input sits in the buffer and the input is closed; then every order of release
         rel = lambda x: {"c": "release", "x": x}
         for mono, vals in (("prod", [2, 3, 4, 5, 6]), ("min", [5, 4, 3, 2, 6]), ("and", [7, 6, 5, 3, 7]), ("max", [2, 3, 4, 5, 1])):
@@ -712,6 +785,13 @@ def special_scheds(pid, th, rng):
                     for order in itertools.permutations(range(par)):
                         cmds = [S() for _ in range(n)] + [{"c": "close", "i": 0}] + [rel((vals * 2)[k]) for k in order] + [rel(-1)] * (2 * n) + [R("res")]
                         out.append({"cfg": cfg, "cmds": cmds, "epilogue": "drain", "origin": "held-combine"})
+    if pid in ("C07", "C09"):
+        # more failing elements in one process than any plausible fixed budget (1100), under Try: every one reported, the rest delivered
+        for kind in ("Map", "FMap"):
+            n = 1100
+            vals = list(range(1, n + 1))
+            cmds = [{"c": "recvall", "o": "out", "d": n}, {"c": "recvall", "o": "exx", "d": n}] + [B(*([S()] * 50)) for _ in range(n // 50)] + [{"c": "close", "i": 0}]
+            out.append({"cfg": C(kind=kind, forked=pid == "C09", par=3, cap=50, mode="try", inputs=[vals], fail=[v for v in vals if v % 10 != 0]), "cmds": cmds, "epilogue": "drain", "origin": "many-failures"})
     if pid == "C09":
         # more failures outstanding than the error channel holds while its reader lags behind (Try: one error per failing element)
         for kind in ("Map", "FMap"):
